@@ -432,6 +432,12 @@ def r4_r5_r7_load(ctx, R4="C02.R4", R5="C02.R5", R7="C02.R7") -> None:
         if isinstance(n, ast.Name) and isinstance(n.ctx, (ast.Store, ast.Del)):
             counts[n.id] = counts.get(n.id, 0) + 1
     for st in fn.body:
+        if isinstance(st, ast.If) and len(st.body) == 1 and len(st.orelse) == 1 and all(
+                isinstance(x, ast.Assign) and len(x.targets) == 1 and isinstance(x.targets[0], ast.Name) for x in (st.body[0], st.orelse[0])) \
+                and st.body[0].targets[0].id == st.orelse[0].targets[0].id and counts.get(st.body[0].targets[0].id) == 2 and _norm.is_pure(st.test):
+            # v = A if C else B   written as a statement
+            st = ast.Assign(targets=[st.body[0].targets[0]], value=ast.IfExp(test=st.test, body=st.body[0].value, orelse=st.orelse[0].value))
+            counts[st.targets[0].id] = 1
         if isinstance(st, ast.Assign) and len(st.targets) == 1 and isinstance(st.targets[0], ast.Name) and counts.get(st.targets[0].id) == 1 \
                 and _norm.is_pure(st.value) and not any(isinstance(k, ast.Call) and u(k.func) not in ("len",) for k in ast.walk(st.value)):
             v = _norm._Subst(dict(stable)).visit(copy.deepcopy(st.value))
